@@ -87,7 +87,7 @@ CHECKS["C16"] = {
     "category": "exploration",
     "text": "Trees with random attribute data (creates with data, set/update, restarts) are queried with searches of the C07 family through GetFromPaths(local/server) and GetFromAll with every attributes subset drawn from a key set (plus a missing key and 'sid') and three sid_encode functions: one record per Sid the finder yields, in the same order; 'sid' = encoded Sid or absent; other keys = the model's overlay, or exactly the requested keys with missing ones None; GetFromAll yields nothing (no exception) for types configured without a Getter; get_one = first record or {}, get_data = that Sid's record, get_attr / sid.get_attr = one value.",
     "ref": "DESIGN.md 5.9",
-    "note": TRUST,
+    "note": TRUST + " One open known finding (F2 in known_findings.json, DESIGN 12.5): GetFromAll.get repeats records when the ',' alternatives of a segment overlap ('*,literal'); the check asks such lists in a small share of its runs, prints KNOWN-FINDING for exact repeats and still reports every other violation.",
 }
 CHECKS["C18"] = {
     "technique": "deterministic simulation: seeded histories over trees with arbitrary version sets, publish chains create(get_new) with restarts, checked against a model of version sets",
